@@ -1,4 +1,6 @@
 import ScnVerif.Lemmas.XyeText
+import ScnVerif.Lemmas.XyeNumbers
+import ScnVerif.Lemmas.XyeDigits
 import ScnVerif.Gen.Xye
 import Mathlib.Tactic.Ring
 import Mathlib.Tactic.Linarith
@@ -23,7 +25,13 @@ correspondence run compares with the real functions text-for-text and bit-for-bi
 * `digitsAt_half_ulp`, `print_parse_id`, `eps_lt_gap` — exact rounding of the printer to half a
   unit of the 19th digit; print-then-parse-to-nearest is the identity on any set with relative
   gaps `≥ 2^-53` (binary64: hypothesis, validated by the oracle) because `2·10^-18 < 2^-53`;
-* `variance_few_ulp` — `√` on save and squaring on load under the standard rounding model.
+* `variance_few_ulp` — `√` on save and squaring on load under the standard rounding model;
+* Tier 2 (number level): `binary64_gap`, `binary64_abs_gap` (proved from first principles),
+  `print_parse_id_binary64`, `formatE18_error` (19 digits within `½·10^-18` relative),
+  `formatE18_decodes` (the parser's tokenizer inverts the renderer), `zeros_back`,
+  `numbersBack_gBack` (the former hypothesis `NumbersBack` now holds outright),
+  `numbers_back_partial` / `coord_value_bit_exact_partial`: every finite bit pattern comes back,
+  under the one remaining hypothesis `ParserNearest` (rounding core of the parser).
 -/
 namespace ScnVerif.Props.C15
 open ScnVerif ScnVerif.Xye
@@ -389,61 +397,17 @@ theorem header_inert_path_full_false : ¬ HeaderInertPathFull := by
 /-! ## rounding of the printer: half a unit of the last digit -/
 
 theorem roundHalfEven_spec (n d : Nat) (hd : 0 < d) :
-    2 * n ≤ 2 * (roundHalfEven n d * d) + d ∧ 2 * (roundHalfEven n d * d) ≤ 2 * n + d := by
-  have hdm := Nat.div_add_mod n d
-  have hlt := Nat.mod_lt n hd
-  unfold roundHalfEven
-  simp only
-  generalize hq : n / d = q at *
-  generalize hr : n % d = r at *
-  have hqd : d * q = q * d := Nat.mul_comm _ _
-  split
-  · constructor <;> nlinarith
-  · split
-    · constructor <;> nlinarith
-    · split
-      · constructor <;> nlinarith
-      · constructor <;> nlinarith
+    2 * n ≤ 2 * (roundHalfEven n d * d) + d ∧ 2 * (roundHalfEven n d * d) ≤ 2 * n + d :=
+  Xye.roundHalfEven_spec n d hd
+
+theorem half_of_scaled (R q d : ℝ) (hd : 0 < d) (lo : 2 * (q * d) ≤ 2 * (R * d) + d)
+    (hi : 2 * (R * d) ≤ 2 * (q * d) + d) : |R - q| ≤ 1 / 2 :=
+  Xye.half_of_scaled R q d hd lo hi
 
 /-- the 19-digit integer the printer emits is within one half of the exactly scaled value -/
-theorem half_of_scaled (R q d : ℝ) (hd : 0 < d) (lo : 2 * (q * d) ≤ 2 * (R * d) + d)
-    (hi : 2 * (R * d) ≤ 2 * (q * d) + d) : |R - q| ≤ 1 / 2 := by
-  rw [abs_le]
-  constructor
-  · by_contra h; rw [not_le] at h
-    have := mul_pos_iff_of_pos_right hd |>.mpr (sub_pos.mpr h)
-    nlinarith
-  · by_contra h; rw [not_le] at h
-    have := mul_pos_iff_of_pos_right hd |>.mpr (sub_pos.mpr h)
-    nlinarith
-
 theorem digitsAt_half_ulp (num den : Nat) (hden : 0 < den) (k : Int) :
-    |(digitsAt num den k : ℝ) - (num : ℝ) / den * (10 : ℝ) ^ (18 - k)| ≤ 1 / 2 := by
-  have hdpos : (0 : ℝ) < den := by exact_mod_cast hden
-  unfold digitsAt
-  split
-  · rename_i hk
-    obtain ⟨n, hn⟩ := Int.eq_ofNat_of_zero_le (show (0 : ℤ) ≤ 18 - k by omega)
-    rw [hn]
-    simp only [Int.toNat_natCast, zpow_natCast]
-    obtain ⟨lo, hi⟩ := roundHalfEven_spec (num * 10 ^ n) den hden
-    set R : ℕ := roundHalfEven (num * 10 ^ n) den
-    have lo' : (2 : ℝ) * (num * 10 ^ n) ≤ 2 * (R * den) + den := by exact_mod_cast lo
-    have hi' : (2 : ℝ) * (R * den) ≤ 2 * (num * 10 ^ n) + den := by exact_mod_cast hi
-    have hq : (num : ℝ) / den * 10 ^ n * den = num * 10 ^ n := by field_simp
-    apply half_of_scaled _ _ _ hdpos <;> rw [hq] <;> assumption
-  · rename_i hk
-    obtain ⟨n, hn⟩ := Int.eq_ofNat_of_zero_le (show (0 : ℤ) ≤ k - 18 by omega)
-    rw [show (18 - k) = -(k - 18) by ring, hn]
-    simp only [Int.toNat_natCast, zpow_neg, zpow_natCast]
-    have hPpos : 0 < den * 10 ^ n := Nat.mul_pos hden (by positivity)
-    obtain ⟨lo, hi⟩ := roundHalfEven_spec num (den * 10 ^ n) hPpos
-    set R : ℕ := roundHalfEven num (den * 10 ^ n)
-    have lo' : (2 : ℝ) * num ≤ 2 * (R * (den * 10 ^ n)) + den * 10 ^ n := by exact_mod_cast lo
-    have hi' : (2 : ℝ) * (R * (den * 10 ^ n)) ≤ 2 * num + den * 10 ^ n := by exact_mod_cast hi
-    have hdP : (0 : ℝ) < den * 10 ^ n := by positivity
-    have hq : (num : ℝ) / den * ((10 : ℝ) ^ n)⁻¹ * (den * 10 ^ n) = num := by field_simp
-    apply half_of_scaled _ _ _ hdP <;> rw [hq] <;> assumption
+    |(digitsAt num den k : ℝ) - (num : ℝ) / den * (10 : ℝ) ^ (18 - k)| ≤ 1 / 2 :=
+  Xye.digitsAt_half_ulp num den hden k
 
 example : digitsAt 1 3 (-1) = 3333333333333333333 := by decide +kernel
 example : roundHalfEven 5 2 = 2 ∧ roundHalfEven 7 2 = 4 := by decide
@@ -525,6 +489,160 @@ example : ((1 + (2:ℝ)^(-53:ℤ)) ^ 3 - 1) ≤ 4 * (2:ℝ)^(-53:ℤ) := by
   have h0 : (0:ℝ) ≤ (2:ℝ)^(-53:ℤ) := by positivity
   generalize (2:ℝ)^(-53:ℤ) = t at *
   nlinarith [mul_nonneg h0 h0, mul_nonneg h0 (sub_nonneg.mpr h), mul_nonneg (mul_nonneg h0 h0) (sub_nonneg.mpr h)]
+
+/-! ## binary64: the set, its gaps, and the printer's error (Tier 2) -/
+
+/-- **(1) binary64 gap**, relative: two distinct finite binary64 numbers (`±m·2^e`, `m < 2^53`,
+`-1074 ≤ e ≤ 971`) are at least `2^-53·max(|x|,|y|)` apart -/
+theorem binary64_gap {x y : ℝ} (hx : Binary64.B64 x) (hy : Binary64.B64 y) (hne : x ≠ y) :
+    (2 : ℝ) ^ (-53 : ℤ) * max |x| |y| ≤ |x - y| := Binary64.binary64_gap hx hy hne
+
+/-- **(1) binary64 gap**, absolute (the one that matters for subnormals) -/
+theorem binary64_abs_gap {x y : ℝ} (hx : Binary64.B64 x) (hy : Binary64.B64 y) (hne : x ≠ y) :
+    (2 : ℝ) ^ (-1074 : ℤ) ≤ |x - y| := Binary64.binary64_abs_gap hx hy hne
+
+/-- every finite bit pattern denotes an element of that set -/
+theorem finite_bits_in_B64 (b : Nat) (hfin : (decode b).2.1 ≠ 2047) : Binary64.B64 (absReal b) :=
+  absReal_mem b hfin
+
+/-- `print_parse_id` with its gap hypothesis discharged for binary64: any printer with relative
+error `≤ ½·10^-18` followed by any nearest-element parser is the identity on the binary64 numbers -/
+theorem print_parse_id_binary64 (print : ℝ → ℝ)
+    (hprint : ∀ x, Binary64.B64 x → |print x - x| ≤ 1 / 2 * (10 : ℝ) ^ (-18 : ℤ) * |x|)
+    (parse : ℝ → ℝ) (hparse : ∀ p, Binary64.B64 (parse p) ∧ ∀ z, Binary64.B64 z → |p - parse p| ≤ |p - z|)
+    (x : ℝ) (hx : Binary64.B64 x) : parse (print x) = x := by
+  apply print_parse_id {x | Binary64.B64 x} ((2 : ℝ) ^ (-53 : ℤ)) (1 / 2 * (10 : ℝ) ^ (-18 : ℤ)) ?_ ?_
+    print hprint parse hparse x hx
+  · have := eps_lt_gap; linarith [show (0 : ℝ) < (10 : ℝ) ^ (-18 : ℤ) by positivity]
+  · intro x hx y hy hne
+    exact Binary64.sig53_gap_left hx.sig53 hy.sig53 hne
+
+/-- **(2) `formatE18_error`**: for a finite non-zero bit pattern `b` the model's printer emits the
+sign of `b`, 19 significant digits `10^18 ≤ D < 10^19` and an exponent `k`, the text is
+`formatFinite neg D k = [-]d.dddddddddddddddddde±XX`, and the number it denotes, `D·10^(k-18)`, is
+within `½·10^-18` relative of `|x|` -/
+theorem formatE18_error (b : Nat) (hfin : (decode b).2.1 ≠ 2047) (hnz : sigOf b ≠ 0) :
+    ∃ (D : Nat) (k : Int), formatE18 b = formatFinite (decode b).1 D k ∧ 10 ^ 18 ≤ D ∧ D < 10 ^ 19 ∧
+      |(D : ℝ) * (10 : ℝ) ^ (k - 18) - absReal b| ≤ 1 / 2 * (10 : ℝ) ^ (-18 : ℤ) * absReal b := by
+  obtain ⟨D, k, hc, h1, h2, h3⟩ := classify_finite b hfin hnz
+  exact ⟨D, k, by simp [formatE18, hc, render], h1, h2, h3⟩
+
+/-- **(2) the text denotes those digits**: the model's parser reads the printed text back as
+exactly `±D·10^(k-18)` (`decodeE18` is the parser's own tokenizer `parseLit`) -/
+theorem formatE18_decodes (b : Nat) (hfin : (decode b).2.1 ≠ 2047) (hnz : sigOf b ≠ 0) :
+    ∃ (D : Nat) (k : Int), classify b = .fin (decode b).1 D k ∧
+      parseLit (formatE18 b) = some (.num (decode b).1 D (k - 18)) ∧
+      parseDecimal (formatE18 b) = some (litBits (.num (decode b).1 D (k - 18))) := by
+  obtain ⟨D, k, hc, _, h2, _⟩ := classify_finite b hfin hnz
+  have hp : parseLit (formatE18 b) = some (.num (decode b).1 D (k - 18)) := by
+    simp only [formatE18, hc, render]; exact parseLit_formatFinite D h2 k _
+  exact ⟨D, k, hc, hp, by simp [parseDecimal, hp]⟩
+
+/-- both zeros come back bit for bit -/
+theorem zeros_back (b : Nat) (hb : b < 2 ^ 64) (hfin : (decode b).2.1 ≠ 2047) (hz : sigOf b = 0) :
+    parseDecimal (formatE18 b) = some b := by
+  have hc := classify_zero b hfin hz
+  have hp : parseLit (formatE18 b) = some (.num (decode b).1 0 (0 - 18)) := by
+    simp only [formatE18, hc, render]; exact parseLit_formatFinite 0 (by norm_num) 0 _
+  simp only [parseDecimal, hp, Option.map_some, litBits, if_true, Option.some.injEq]
+  -- the bit pattern of a zero is its sign bit
+  have hz' : (decode b).2.1 = 0 ∧ (decode b).2.2 = 0 := by
+    unfold sigOf at hz
+    split at hz
+    · rename_i h; exact ⟨h, hz⟩
+    · omega
+  simp only [decode] at hz' ⊢
+  obtain ⟨h0, h1⟩ := hz'
+  by_cases hs : b / 2 ^ 63 % 2 = 1
+  · simp only [hs, decide_true, if_true]; omega
+  · simp only [hs, decide_false, Bool.false_eq_true, if_false]; omega
+
+/-! ## what remains of the number-level round trip -/
+
+/-- **(3), not proved — hypothesis**: the rounding core of the model's parser (`litBits`, i.e.
+`nearestBits` with `binExpFrom` and `roundHalfEven`) maps a decimal `D·10^(k-18)` that is within
+`½·10^-18` relative of the finite non-zero binary64 `b` back to the bit pattern `b`.
+By `binary64_gap` that decimal is closer to `b` than to any other binary64 number (this is
+`print_parse_id_binary64`), so the hypothesis says exactly that `nearestBits` returns the nearest
+binary64; it is validated on every sample by the correspondence run. -/
+def ParserNearest : Prop :=
+  ∀ (b : Nat) (D : Nat) (k : Int), b < 2 ^ 64 → (decode b).2.1 ≠ 2047 → sigOf b ≠ 0 →
+    10 ^ 18 ≤ D → D < 10 ^ 19 →
+    |(D : ℝ) * (10 : ℝ) ^ (k - 18) - absReal b| ≤ 1 / 2 * (10 : ℝ) ^ (-18 : ℤ) * absReal b →
+    litBits (.num (decode b).1 D (k - 18)) = b
+
+/-- **(4) `numbers_back`, partial**: every finite binary64 bit pattern survives
+`parseDecimal ∘ formatE18` — text generation, tokenizing, digit evaluation and the printer's
+rounding are proved; the parser's rounding enters as `ParserNearest` -/
+theorem numbers_back_partial (hN : ParserNearest) (b : Nat) (hb : b < 2 ^ 64)
+    (hfin : (decode b).2.1 ≠ 2047) : parseDecimal (formatE18 b) = some b := by
+  by_cases hz : sigOf b = 0
+  · exact zeros_back b hb hfin hz
+  · obtain ⟨D, k, hc, h1, h2, h3⟩ := classify_finite b hfin hz
+    obtain ⟨D', k', hc', _, hp⟩ := formatE18_decodes b hfin hz
+    rw [hc] at hc'
+    injection hc' with _ hD hk
+    subst hD; subst hk
+    rw [hp, hN b D k hb hfin hz h1 h2 h3]
+
+/-- what comes back for an arbitrary bit pattern (finite, infinite or NaN) -/
+def gBack (b : Nat) : Nat := (parseDecimal (formatE18 b)).getD 0
+
+theorem gBack_finite (hN : ParserNearest) (b : Nat) (hb : b < 2 ^ 64) (hfin : (decode b).2.1 ≠ 2047) :
+    gBack b = b := by simp [gBack, numbers_back_partial hN b hb hfin]
+
+/-- the text the printer writes always parses (finite numbers by `parseLit_formatFinite`,
+infinities and NaN by evaluation): the former *hypothesis* `NumbersBack` holds outright for
+`gBack`, and under `ParserNearest` `gBack b = b` for every finite `b` (`gBack_finite`) -/
+theorem numbersBack_gBack : NumbersBack gBack := by
+  intro b
+  have hsome : ∃ v, parseDecimal (formatE18 b) = some v := by
+    by_cases hfin : (decode b).2.1 ≠ 2047
+    · by_cases hz : sigOf b = 0
+      · have hc := classify_zero b hfin hz
+        have hp : parseLit (formatE18 b) = some (.num (decode b).1 0 (0 - 18)) := by
+          simp only [formatE18, hc, render]; exact parseLit_formatFinite 0 (by norm_num) 0 _
+        exact ⟨_, by rw [parseDecimal, hp]; rfl⟩
+      · obtain ⟨D, k, _, _, hp⟩ := formatE18_decodes b hfin hz
+        exact ⟨_, hp⟩
+    · have hfin' : (decode b).2.1 = 2047 := by simpa using hfin
+      have hcl : classify b = .nan ∨ classify b = .inf true ∨ classify b = .inf false := by
+        unfold classify
+        simp only [hfin', if_true]
+        split
+        · cases (decode b).1 <;> simp
+        · simp
+      rcases hcl with h | h | h <;> simp only [formatE18, h] <;> exact ⟨_, rfl⟩
+  obtain ⟨v, hv⟩ := hsome
+  simp [gBack, hv]
+
+/-- `n ≥ 1` rows give `n` rows back — file objects, any header — **without** the `NumbersBack`
+hypothesis; the coordinate and value columns come back as `gBack x`, `gBack y`, which are `x`, `y`
+themselves for finite numbers under `ParserNearest` -/
+theorem rows_any_n_fileobj_concrete (sqrt sq : Nat → Nat) (header : List Char)
+    (rows : List (Nat × Nat × Nat)) (hrows : rows ≠ []) :
+    ∃ back, loadText parseDecimal sq false (saveText formatE18 sqrt header rows) = .ok back
+      ∧ back.length = rows.length ∧ back = rows.map (backRow gBack sqrt sq) :=
+  rows_any_n_fileobj gBack numbersBack_gBack sqrt sq header rows hrows
+
+theorem rows_any_n_path_concrete_partial (sqrt sq : Nat → Nat) (header : List Char) (hcr : '\r' ∉ header)
+    (rows : List (Nat × Nat × Nat)) (hrows : rows ≠ []) :
+    ∃ back, loadText parseDecimal sq true (saveText formatE18 sqrt header rows) = .ok back
+      ∧ back.length = rows.length ∧ back = rows.map (backRow gBack sqrt sq) :=
+  rows_any_n_path_partial gBack numbersBack_gBack sqrt sq header hcr rows hrows
+
+theorem header_inert_fileobj_concrete (sqrt sq : Nat → Nat) (h1 h2 : List Char)
+    (rows : List (Nat × Nat × Nat)) (hrows : rows ≠ []) :
+    loadText parseDecimal sq false (saveText formatE18 sqrt h1 rows)
+      = loadText parseDecimal sq false (saveText formatE18 sqrt h2 rows) :=
+  header_inert_fileobj gBack numbersBack_gBack sqrt sq h1 h2 rows hrows
+
+/-- coordinates and values of finite rows come back bit for bit (under `ParserNearest`) -/
+theorem coord_value_bit_exact_partial (hN : ParserNearest) (sqrt sq : Nat → Nat) (r : Nat × Nat × Nat)
+    (hx : r.1 < 2 ^ 64 ∧ (decode r.1).2.1 ≠ 2047) (hy : r.2.1 < 2 ^ 64 ∧ (decode r.2.1).2.1 ≠ 2047) :
+    (backRow gBack sqrt sq r).1 = r.1 ∧ (backRow gBack sqrt sq r).2.1 = r.2.1 :=
+  ⟨gBack_finite hN r.1 hx.1 hx.2, gBack_finite hN r.2.1 hy.1 hy.2⟩
+
 
 /-! ## header rewriting statements of `save_xye` (regenerated from the source on every run) -/
 
